@@ -194,6 +194,11 @@ pub fn step(m: &Mirror, x: usize, ing: u16, now: u32, b: &mut [u8]) -> Verdict {
         _ => return Verdict::Drop,
     }
     let Some(p) = StdPath::parse(b, h.path_off, h.hdr_len) else { return Verdict::Drop };
+    // the path must fill the header's path area exactly; implementations differ on trailing bytes (the open-source
+    // router ignores them, a strict parser rejects the packet)
+    if p.off + 4 + 8 * p.n_inf + 12 * p.n_hf != h.hdr_len {
+        return Verdict::Unspecified("path does not fill the header's path area");
+    }
     // 1. well-formedness
     if p.seg_len[0] == 0 || (p.seg_len[1] == 0 && p.seg_len[2] != 0) || p.curr_hf >= p.n_hf {
         return Verdict::Drop;
